@@ -1,6 +1,9 @@
 """C18 - Gamma surface periodic, interpolating; Peierls-Nabarro energies match formulas."""
 from __future__ import annotations
 
+import contextlib
+import signal
+
 import numpy as np
 
 from ..core import fingerprint
@@ -34,6 +37,29 @@ MAXN_MONITOR = 64
 # ----------------------------------------------------------------------------
 # helpers
 # ----------------------------------------------------------------------------
+class CpuLimit(Exception):
+    pass
+
+
+@contextlib.contextmanager
+def cpu_limit(seconds):
+    """Raise CpuLimit inside the block after ``seconds`` of process CPU time
+    (ITIMER_VIRTUAL, so a loaded machine does not trip it)."""
+    def handler(signum, frame):
+        raise CpuLimit(f'more than {seconds} s of CPU time')
+    try:
+        old = signal.signal(signal.SIGVTALRM, handler)
+    except ValueError:          # not the main thread
+        yield
+        return
+    signal.setitimer(signal.ITIMER_VIRTUAL, seconds)
+    try:
+        yield
+    finally:
+        signal.setitimer(signal.ITIMER_VIRTUAL, 0)
+        signal.signal(signal.SIGVTALRM, old)
+
+
 def plane_of(S, xvect=None, a1=None, a2=None):
     bv = S['boxvects'] if S['boxvects'] is not None else np.eye(3)
     return O.Plane(S['a1vect'] if a1 is None else a1, S['a2vect'] if a2 is None else a2, bv, xvect=xvect)
@@ -552,6 +578,9 @@ def solve_case(ctx, am, i):
     cls['flags'] = dict(fullstress=bool(i % 2), cdiffstress=False, cdiffelastic=bool(i & 2), cdiffsurface=bool(i & 4))
     cls['profile'] = ['arctan', 'rough', 'smooth'][i % 3]
     P = gen.gen_pn(rng, i, cls)
+    # keep the minimisation well posed (energy bounded below): non-negative alpha and beta
+    P['alpha_value'] = [abs(t) for t in P['alpha_value']] if isinstance(P['alpha_value'], list) else abs(P['alpha_value'])
+    P['beta_value'] = np.abs(P['beta_value'])
     method = 'Powell' if i % 4 != 3 else 'Nelder-Mead'
     N = [9, 13, 17, 25][i % 4] if not ctx.quick else [7, 11, 9, 13][i % 4]
     maxiter = 1 if N > 9 else 2
@@ -708,7 +737,11 @@ def run(ctx):
     for name, n, fn in groups:
         t0 = time.process_time()
         for i in ctx.cases(name, n):
-            fn(ctx, am, i)
+            try:
+                with cpu_limit(240):
+                    fn(ctx, am, i)
+            except CpuLimit as e:
+                rec.fail(f'every {name} case finishes within 240 s of CPU time (normal: < 15 s)', f'{name}:cpu-limit', exception=e)
         rec.count('cpu_ms:' + name, int(1000 * (time.process_time() - t0)))
 
     for k, v in monitor.calls.items():
